@@ -362,6 +362,35 @@ class Module:
                 return
         raise Untranslatable(f"{name} not found", where=self.path)
 
+    def translate_expr_table(self, name: str) -> None:
+        """T1: a module-level tuple/list/dict of dtype expressions -> table of their source text.
+
+        `np.dtype(np.X)` and `np.X` are both rendered as `X`; other names are kept as written."""
+        def txt(e: ast.expr) -> str:
+            t = ast.unparse(e)
+            if t.startswith("np.dtype(") and t.endswith(")"):
+                t = t[len("np.dtype("):-1]
+            if t.startswith("np."):
+                t = t[3:]
+            if not all(c.isalnum() or c == "_" for c in t):
+                raise Untranslatable(f"{name}: entry {t!r}", e, self.path)
+            return t
+        for n in self.tree.body:
+            if isinstance(n, ast.Assign) and isinstance(n.targets[0], ast.Name) and n.targets[0].id == name:
+                v = n.value
+                self.out.append(f"/-- generated from `{name}` -/")
+                if isinstance(v, (ast.Tuple, ast.List)):
+                    body = ", ".join(f'"{txt(e)}"' for e in v.elts)
+                    self.out.append(f"@[pygen] def {name.lstrip('_')}_table : List String := [{body}]")
+                elif isinstance(v, ast.Dict):
+                    body = ", ".join(f'("{txt(k)}", "{txt(e)}")' for k, e in zip(v.keys, v.values))
+                    self.out.append(f"@[pygen] def {name.lstrip('_')}_table : List (String × String) := [{body}]")
+                else:
+                    raise Untranslatable(f"{name}: not a tuple/list/dict literal", n, self.path)
+                self.out.append("")
+                return
+        raise Untranslatable(f"{name} not found", where=self.path)
+
     def translate_dispatch_branch(self, cls: str, name: str, kind: str, kind_type, lean_name: str,
                                   arg: str = "value") -> FuncInfo:
         """T4: the branch of an `if isinstance(arg, K) ... elif ...` chain selected by `kind`."""
